@@ -201,7 +201,8 @@ Section Fr.
 
   Lemma seek_ofs_same eofk s p : (forall t, quiet t -> Same t (snd (eofk t))) -> quiet s -> Same s (snd (seek_ofs bs ofs bad eofk s p)).
   Proof.
-    intros He Hq. unfold seek_ofs. pose proof (seek_start_same s) as H0. set (s0 := snd (seek_start bs ofs bad s)) in *.
+    intros He Hq. unfold seek_ofs. pose proof (seek_start_same s) as H0. destruct (seek_start bs ofs bad s) as (ok0, s0). cbn [snd] in H0.
+    destruct ok0; cbn [negb snd]; [|exact H0].
     destruct (_ =? fsize s0).
     - eapply same_trans; [exact H0|]. apply He. apply (same_quiet s s0 H0 Hq).
     - eapply same_trans; [exact H0|]. apply ofs_walk_same.
